@@ -151,8 +151,10 @@ impl IndicatorInstance for MoneyFlowIndexInstance {
 		self.last_prev_candle = last_candle;
 		self.prev_candle = static_candle;
 
-		self.pmf += pos - left_pos;
-		self.nmf += neg - left_neg;
+		// both flows are sums of non-negative volumes: do not let rounding residues of the incremental
+		// updates make them negative, otherwise the ratio leaves [0.0; 1.0] (down to negative infinity)
+		self.pmf = (self.pmf + (pos - left_pos)).max(0.);
+		self.nmf = (self.nmf + (neg - left_neg)).max(0.);
 
 		let mfr = if self.nmf == 0.0 {
 			1.
